@@ -29,6 +29,7 @@ type Node struct {
 	DetFn    *ssa.Function // body that runs: the function itself, or the closure a constructor returned
 	DetCtor  *ssa.Call     // for detector variables: the constructing call in magic's init (prefix/offset/...)
 	DetBind  []ssa.Value   // for detector variables: closure bindings
+	Literal  bool          // written as a keyed literal, not through the constructor (stand-alone node: no children)
 	DetChain []*ssa.Call   // detector variables built by constructors calling constructors: the calls from init inwards
 	Children []*Node
 	ChildPos []token.Pos
@@ -207,6 +208,9 @@ func extract(c *core.Ctx) *Model {
 	sort.Slice(m.Nodes, func(i, j int) bool { return m.Nodes[i].Pos < m.Nodes[j].Pos })
 	// link children
 	for _, n := range m.Nodes {
+		if n.Call == nil {
+			continue // literal node: no children
+		}
 		for i, arg := range n.Call.Args[3:] {
 			id, ok := ast.Unparen(arg).(*ast.Ident)
 			var ch *Node
@@ -268,6 +272,12 @@ func storesField(f *ssa.Function, field int) bool {
 }
 
 func (m *Model) parseInit(c *core.Ctx, info *types.Info, obj *types.Var, e ast.Expr) *Node {
+	// a stand-alone node written as a literal: &T{mime: ..., extension: ..., detector: ..., aliases: ...}
+	if un, ok := ast.Unparen(e).(*ast.UnaryExpr); ok && un.Op == token.AND {
+		if cl, ok := ast.Unparen(un.X).(*ast.CompositeLit); ok {
+			return m.parseLiteral(info, obj, cl)
+		}
+	}
 	call, ok := ast.Unparen(e).(*ast.CallExpr)
 	if !ok {
 		return nil
@@ -313,6 +323,72 @@ func (m *Model) parseInit(c *core.Ctx, info *types.Info, obj *types.Var, e ast.E
 	case *ast.Ident:
 		n.DetObj = info.Uses[d]
 	}
+	return n
+}
+
+// parseLiteral reads a keyed composite literal of the node type. Only the
+// descriptive fields may be set: a literal with children or a parent is not a
+// stand-alone node and is not accepted.
+func (m *Model) parseLiteral(info *types.Info, obj *types.Var, cl *ast.CompositeLit) *Node {
+	st, ok := m.Type.Underlying().(*types.Struct)
+	if !ok || !types.Identical(info.TypeOf(cl), m.Type) {
+		return nil
+	}
+	n := &Node{Var: obj, Name: obj.Name(), Pos: obj.Pos(), AliasOK: true}
+	for _, el := range cl.Elts {
+		kv, ok := el.(*ast.KeyValueExpr)
+		if !ok {
+			return nil
+		}
+		key, ok := kv.Key.(*ast.Ident)
+		if !ok {
+			return nil
+		}
+		fi := -1
+		for i := 0; i < st.NumFields(); i++ {
+			if st.Field(i).Name() == key.Name {
+				fi = i
+			}
+		}
+		switch fi {
+		case m.FMime:
+			if tv := info.Types[kv.Value]; tv.Value != nil && tv.Value.Kind() == constant.String {
+				n.Mime, n.MimeOK = constant.StringVal(tv.Value), true
+			}
+		case m.FExt:
+			if tv := info.Types[kv.Value]; tv.Value != nil && tv.Value.Kind() == constant.String {
+				n.Ext = constant.StringVal(tv.Value)
+			}
+		case m.FDet:
+			n.DetExpr = kv.Value
+			switch d := ast.Unparen(kv.Value).(type) {
+			case *ast.SelectorExpr:
+				n.DetObj = info.Uses[d.Sel]
+			case *ast.Ident:
+				n.DetObj = info.Uses[d]
+			}
+		case m.FAliases:
+			lit, ok := ast.Unparen(kv.Value).(*ast.CompositeLit)
+			if !ok {
+				n.AliasOK = false
+				continue
+			}
+			for _, a := range lit.Elts {
+				if tv := info.Types[a]; tv.Value != nil && tv.Value.Kind() == constant.String {
+					n.Aliases = append(n.Aliases, constant.StringVal(tv.Value))
+					n.AliasPos = append(n.AliasPos, a.Pos())
+				} else {
+					n.AliasOK = false
+				}
+			}
+		default:
+			return nil // children / parent / unknown field
+		}
+	}
+	if n.DetExpr == nil {
+		return nil // a node without a detector would make the walk call nil
+	}
+	n.Literal = true
 	return n
 }
 
